@@ -2,7 +2,7 @@ HOOK_COMMITS = []
 ENGINES = [
     {"name": "runner", "path": "vlib/runner.py", "serves_properties": ["C01"], "kind_free_text": "Hypothesis driver: seeded workers, collect-then-shrink per root-cause key, plain-JSON replay, evidence"},
     {"name": "E1 refcodec", "path": "vlib/refcodec.py", "serves_properties": ["C01","C02","C03"], "kind_free_text": "independent RFC 7252 section 3 codec used as differential oracle and by the raw peers"},
-    {"name": "E2 simnet", "path": "vlib/simnet.py", "serves_properties": ["C02", "C03", "C04", "C07", "C09", "C10", "C14", "C18"], "kind_free_text": "virtual-clock asyncio loop + simulated datagram network under the real aiocoap stack; scripted raw peers; per-datagram fates"},
+    {"name": "E2 simnet", "path": "vlib/simnet.py", "serves_properties": ["C02", "C03", "C04", "C07", "C08", "C09", "C10", "C14", "C18"], "kind_free_text": "virtual-clock asyncio loop + simulated datagram network under the real aiocoap stack; scripted raw peers; per-datagram fates"},
 ]
 ALL = ["C%02d" % i for i in range(1, 21)]
 CHECKS = [
@@ -69,6 +69,14 @@ CHECKS += [
         "technique": "property-based testing of notification arrival sequences (values, order, duplicates, virtual arrival times, terminators) in four API modes against a reference RFC 7641 section 3.4 freshness filter",
         "text": "Generated notification sequences (24-bit boundary values, wrap-around, gaps around 128 s, reordering/duplication through datagram fates, terminators) are fed to the real client; a reference freshness filter over the arrival sequence decides what must be handed to the application, exactly for callbacks and as an in-order subsequence ending in the freshest element for the lossy iterator; terminal signals are counted and typed. Sampled sequences.",
         "note": "trusted: vlib/simnet.py (aiocoap.protocol.time is the virtual clock), refcodec, the 6-line reference filter (self-tested on boundary values)",
+    },
+]
+CHECKS += [
+    {
+        "id": "C08", "engine": "E2 simnet + Hypothesis", "level": "exploration",
+        "technique": "property-based testing of registration / trigger / reaction / end-cause histories on a virtual clock against a registration-generation model; probe at quiescence",
+        "text": "Generated histories of registrations, state-change bursts, observer reactions (ACK/RST/silence), re-registrations, explicit terminators, transport errors and shutdown; a model derives each registration's end cause and instant and the oracle checks Observe monotonicity, that no state changed after the end is sent, that a probe change at quiescence reaches exactly the live registrations, and the observer count. Sampled histories; 'eventually' is decided by quiescence of the finite scenario.",
+        "note": "trusted: vlib/simnet.py, refcodec, the generation/ownership model in checks/c08.py (messages attributed by the instant their state changed)",
     },
 ]
 claimed = {c["id"] for c in CHECKS}
